@@ -15,6 +15,7 @@
 import GojaModel.C06.Lemmas
 import GojaModel.C06.Utf8
 import GojaModel.C06.Spec
+import GojaModel.C06.Builtins
 namespace GojaModel.C06
 
 /-! ## constructors -/
@@ -892,6 +893,900 @@ spec has two code points (the lone D800 and U+1F600) — the changed decoder pro
 theorem lenient_pushback_reexamined_witness :
     Spec.lenientDecode [0xD800, 0xD83D, 0xDE00] = [0xD800, 0x1F600] := by
   decide
+
+/-! ## String built-ins: the mechanism (Builtins.lean) refines the spec (Spec.lean) and preserves NF -/
+
+section BuiltinsSection
+open Builtins
+
+theorem nf_emptyStr : NF emptyStr := by simp [emptyStr, NF]
+theorem units_emptyStr : units emptyStr = [] := rfl
+
+theorem relIdx_clampRel (l : Nat) (x : Int) : (clampRel x (l : Int)).toNat = Spec.relIdx l x := by
+  unfold clampRel Spec.relIdx
+  simp only [Int.ofNat_eq_natCast]
+  split <;> split <;> omega
+
+theorem clampRel_self (l : Nat) : (clampRel (l : Int) (l : Int)).toNat = l := by
+  unfold clampRel; split <;> split <;> omega
+
+theorem slice_empty_of_le {α : Type} (l : List α) {a b : Nat} (h : b ≤ a) : slice l a b = [] := by
+  simp [slice, Nat.sub_eq_zero_of_le h]
+
+/-- String.prototype.slice as coded = the spec's slice on units -/
+theorem sliceM_units (s : Str) (i : Int) (j : Option Int) :
+    units (sliceM s i j) = Spec.jsSlice (units s) i j := by
+  unfold sliceM Spec.jsSlice
+  simp only [len]
+  have e1 := relIdx_clampRel (units s).length i
+  cases j with
+  | none =>
+    simp only [Option.getD]
+    have e2 := clampRel_self (units s).length
+    by_cases h : clampRel ↑(units s).length ↑(units s).length > clampRel i ↑(units s).length
+    · simp only [h, ↓reduceIte]
+      rw [substring_units, e1, e2]
+    · simp only [h, ↓reduceIte]
+      rw [units_emptyStr, ← e1, slice_empty_of_le]
+      omega
+  | some j =>
+    simp only [Option.getD]
+    have e2 := relIdx_clampRel (units s).length j
+    by_cases h : clampRel j ↑(units s).length > clampRel i ↑(units s).length
+    · simp only [h, ↓reduceIte]
+      rw [substring_units, e1, e2]
+    · simp only [h, ↓reduceIte]
+      rw [units_emptyStr, ← e1, ← e2, slice_empty_of_le]
+      omega
+
+theorem nf_sliceM {s : Str} (h : NF s) (i : Int) (j : Option Int) : NF (sliceM s i j) := by
+  simp only [sliceM]
+  split
+  · exact nf_substring h _ _
+  · exact nf_emptyStr
+
+theorem clampIdx_clamp0 (l : Nat) (x : Int) : (clamp0 x (l : Int)).toNat = Spec.clampIdx l x := by
+  unfold clamp0 Spec.clampIdx
+  split
+  · simp
+  · split <;> omega
+
+theorem clamp0_self (l : Nat) : (clamp0 (l : Int) (l : Int)).toNat = l := by
+  unfold clamp0; split <;> (try split) <;> omega
+
+theorem clamp0_le (x : Int) (l : Nat) : 0 ≤ clamp0 x (l : Int) := by
+  unfold clamp0; split <;> (try split) <;> omega
+
+theorem len_def (s : Str) : (units s).length = len s := rfl
+
+/-- String.prototype.substring as coded = the spec's substring on units -/
+theorem substringM_units (s : Str) (i : Int) (j : Option Int) :
+    units (substringM s i j) = Spec.jsSubstring (units s) i j := by
+  have e1 := clampIdx_clamp0 (len s) i
+  have p1 := clamp0_le i (len s)
+  cases j with
+  | none =>
+    simp only [substringM, Spec.jsSubstring, len_def, Option.getD]
+    have e2 := clamp0_self (len s)
+    rw [← e1]
+    split
+    · rw [substring_units]; congr 1 <;> omega
+    · rw [substring_units]; congr 1 <;> omega
+  | some j =>
+    simp only [substringM, Spec.jsSubstring, len_def, Option.getD]
+    have e2 := clampIdx_clamp0 (len s) j
+    have p2 := clamp0_le j (len s)
+    rw [← e1, ← e2]
+    split
+    · rw [substring_units]; congr 1 <;> omega
+    · rw [substring_units]; congr 1 <;> omega
+
+theorem nf_substringM {s : Str} (h : NF s) (i : Int) (j : Option Int) : NF (substringM s i j) := by
+  simp only [substringM]
+  split <;> exact nf_substring h _ _
+
+theorem substr_idx (L : Nat) (i : Int) (n : Option Int) :
+    let start : Int := if i < 0 then max ((L : Int) + i) 0 else i
+    let length : Int := min (max (n.getD (L : Int)) 0) ((L : Int) - start)
+    let a := Spec.relIdx L i
+    let cnt := Spec.substrCnt L a n
+    (length ≤ 0 → cnt = 0) ∧ (¬ length ≤ 0 → start.toNat = a ∧ (start + length).toNat = a + cnt) := by
+  simp only [Spec.relIdx, Int.ofNat_eq_natCast]
+  cases n with
+  | none =>
+    simp only [Option.getD, Spec.substrCnt]
+    split <;> constructor <;> intro h <;> omega
+  | some n =>
+    simp only [Option.getD, Spec.substrCnt]
+    split <;> split <;> constructor <;> intro h <;> omega
+
+/-- String.prototype.substr as coded = the spec's substr on units -/
+theorem substrM_units (s : Str) (i : Int) (n : Option Int) :
+    units (substrM s i n) = Spec.jsSubstr (units s) i n := by
+  have k := substr_idx (len s) i n
+  simp only at k
+  simp only [substrM, Spec.jsSubstr, len_def]
+  by_cases hi : i < 0
+  · simp only [hi, ↓reduceIte] at k ⊢
+    by_cases h : min (max (n.getD (len s : Int)) 0) ((len s : Int) - max ((len s : Int) + i) 0) ≤ 0
+    · simp only [h, ↓reduceIte]
+      rw [units_emptyStr, k.1 h, slice_empty_of_le]
+      omega
+    · simp only [h, ↓reduceIte]
+      rw [substring_units, (k.2 h).1, (k.2 h).2]
+  · simp only [hi, ↓reduceIte] at k ⊢
+    by_cases h : min (max (n.getD (len s : Int)) 0) ((len s : Int) - i) ≤ 0
+    · simp only [h, ↓reduceIte]
+      rw [units_emptyStr, k.1 h, slice_empty_of_le]
+      omega
+    · simp only [h, ↓reduceIte]
+      rw [substring_units, (k.2 h).1, (k.2 h).2]
+
+theorem nf_substrM {s : Str} (h : NF s) (i : Int) (n : Option Int) : NF (substrM s i n) := by
+  simp only [substrM]
+  repeat' split
+  all_goals first | exact nf_emptyStr | exact nf_substring h _ _
+
+theorem take1_drop {α : Type} : ∀ (l : List α) (k : Nat) (h : k < l.length), (l.drop k).take 1 = [l[k]]
+  | a :: as, 0, _ => rfl
+  | a :: as, k + 1, h => by
+    have := take1_drop as k (by simpa using h)
+    simpa using this
+
+theorem slice_one {α : Type} (l : List α) (k : Nat) (h : k < l.length) : slice l k (k + 1) = [l[k]] := by
+  simp only [slice]
+  have e : k + 1 - k = 1 := by omega
+  rw [e, take1_drop l k h]
+
+/-- String.prototype.at as coded: undefined exactly when out of range, else the one-unit string the spec names -/
+theorem atM_units (s : Str) (pos : Int) :
+    (match atM s pos with | none => [] | some r => units r) = Spec.jsAt (units s) pos := by
+  simp only [atM, Spec.jsAt, len_def, Int.ofNat_eq_natCast]
+  have hL := len_def s
+  by_cases hp : pos < 0
+  · simp only [hp, ↓reduceIte]
+    by_cases hr : (len s : Int) + pos ≥ (len s : Int) ∨ (len s : Int) + pos < 0
+    · rw [if_pos hr]
+      rcases hr with hr | hr
+      · omega
+      · simp [hr]
+    · rw [if_neg hr]
+      have h0 : ¬ ((len s : Int) + pos < 0) := by omega
+      simp only [h0, ↓reduceIte]
+      rw [substring_units]
+      have hlt : ((len s : Int) + pos).toNat < (units s).length := by rw [hL]; omega
+      rw [List.getElem?_eq_getElem hlt]
+      have e : ((len s : Int) + pos + 1).toNat = ((len s : Int) + pos).toNat + 1 := by omega
+      rw [e, slice_one _ _ hlt]
+  · simp only [hp, ↓reduceIte, or_false]
+    by_cases hr : pos ≥ (len s : Int)
+    · rw [if_pos hr]
+      have hge : (units s).length ≤ pos.toNat := by rw [hL]; omega
+      simp [List.getElem?_eq_none hge]
+    · rw [if_neg hr]
+      simp only
+      rw [substring_units]
+      have hlt : pos.toNat < (units s).length := by rw [hL]; omega
+      rw [List.getElem?_eq_getElem hlt]
+      have e : (pos + 1).toNat = pos.toNat + 1 := by omega
+      rw [e, slice_one _ _ hlt]
+
+theorem nf_atM {s : Str} (h : NF s) (pos : Int) : ∀ r, atM s pos = some r → NF r := by
+  intro r hr
+  simp only [atM] at hr
+  by_cases hc : (if pos < 0 then (len s : Int) + pos else pos) ≥ (len s : Int) ∨ (if pos < 0 then (len s : Int) + pos else pos) < 0
+  · simp [hc] at hr
+  · simp only [hc, ↓reduceIte, Option.some.injEq] at hr
+    rw [← hr]
+    exact nf_substring h _ _
+
+/-- String.prototype.charAt as coded = the spec's charAt on units -/
+theorem charAtM_units (s : Str) (pos : Int) : units (charAtM s pos) = Spec.jsCharAt (units s) pos := by
+  simp only [charAtM, Spec.jsCharAt, Int.ofNat_eq_natCast]
+  have hL := len_def s
+  by_cases hp : pos < 0
+  · simp [hp, units_emptyStr]
+  · by_cases hr : pos ≥ (len s : Int)
+    · have hge : (units s).length ≤ pos.toNat := by rw [hL]; omega
+      simp [hp, hr, units_emptyStr, List.getElem?_eq_none hge]
+    · have hlt : pos.toNat < (units s).length := by rw [hL]; omega
+      have e : (pos + 1).toNat = pos.toNat + 1 := by omega
+      simp only [hp, hr, or_self, ↓reduceIte]
+      rw [substring_units, List.getElem?_eq_getElem hlt, e, slice_one _ _ hlt]
+
+theorem nf_charAtM {s : Str} (h : NF s) (pos : Int) : NF (charAtM s pos) := by
+  simp only [charAtM]
+  split
+  · exact nf_emptyStr
+  · exact nf_substring h _ _
+
+
+/-! builders -/
+
+theorem units_touch (s : Str) : units (touch s) = units s := by cases s <;> rfl
+theorem nf_touch {s : Str} (h : NF s) : NF (touch s) := by cases s <;> first | exact h | trivial
+
+theorem usb0_inv : usb0.Inv ∧ usb0.units = [] := by
+  have := sb_switch sb_inv_empty
+  exact ⟨this.1, by rw [usb0, this.2.2]; rfl⟩
+
+theorem rep_succ (x : Spec.S) (k : Nat) : Spec.rep x (k + 1) = x ++ Spec.rep x k := by
+  simp [Spec.rep, List.replicate_succ]
+
+theorem rep_zero (x : Spec.S) : Spec.rep x 0 = [] := rfl
+
+theorem rep_nil : ∀ k : Nat, Spec.rep [] k = []
+  | 0 => rfl
+  | k + 1 => by rw [rep_succ, rep_nil k]; rfl
+
+theorem writeTimes_spec : ∀ (k : Nat) {b : SB} {x : Str}, b.Inv → NF x →
+    (writeTimes b x k).Inv ∧ (writeTimes b x k).units = b.units ++ Spec.rep (units x) k
+  | 0, b, x, h, _ => by simp [writeTimes, h, rep_zero]
+  | k + 1, b, x, h, hx => by
+    have h1 := sb_writeString h hx
+    have h2 := writeTimes_spec k h1.1 hx
+    simp only [writeTimes]
+    exact ⟨h2.1, by rw [h2.2, h1.2, rep_succ, List.append_assoc]⟩
+
+theorem map_flatten_replicate {α β : Type} (f : α → β) (a : List α) : ∀ k : Nat,
+    ((List.replicate k a).flatten).map f = (List.replicate k (a.map f)).flatten
+  | 0 => rfl
+  | k + 1 => by simp [List.replicate_succ, map_flatten_replicate f a k]
+
+theorem all_flatten_replicate {α : Type} (p : α → Bool) (a : List α) (h : a.all p = true) : ∀ k : Nat,
+    ((List.replicate k a).flatten).all p = true
+  | 0 => rfl
+  | k + 1 => by simp [List.replicate_succ, List.all_append, h, all_flatten_replicate p a h k]
+
+theorem all_take {α : Type} {p : α → Bool} {l : List α} (h : l.all p = true) (n : Nat) : (l.take n).all p = true := by
+  rw [List.all_eq_true] at h ⊢
+  intro x hx
+  exact h x (List.mem_of_mem_take hx)
+
+theorem slice_zero {α : Type} (l : List α) (n : Nat) : slice l 0 n = l.take n := by simp [slice]
+
+/-- padStart / padEnd as coded (both the strings.Builder path and the unicodeStringBuilder path, incl. the partial
+last copy of the filler) = the spec on units -/
+theorem padM_spec {s f : Str} (hs : NF s) (hf : NF f) (n : Nat) (atStart : Bool) :
+    NF (padM s f n atStart) ∧ units (padM s f n atStart) =
+      (if atStart then Spec.padStart (units s) n (units f) else Spec.padEnd (units s) n (units f)) := by
+  have hsl := len_def s
+  have hfl := len_def f
+  unfold padM
+  by_cases h1 : n ≤ len s
+  · rw [if_pos h1, units_touch]
+    refine ⟨nf_touch hs, ?_⟩
+    cases atStart <;> simp [Spec.padStart, Spec.padEnd, hsl, h1]
+  · rw [if_neg h1]
+    by_cases h2 : len f = 0
+    · rw [if_pos h2, units_touch]
+      have : (units f).isEmpty = true := by
+        have : (units f).length = 0 := by rw [hfl]; exact h2
+        simpa using this
+      refine ⟨nf_touch hs, ?_⟩
+      cases atStart <;> simp [Spec.padStart, Spec.padEnd, this]
+    · rw [if_neg h2]
+      have he : (units f).isEmpty = false := by
+        cases hu : units f with
+        | nil => rw [← hfl, hu] at h2; simp at h2
+        | cons a as => rfl
+      have hn : ¬ n ≤ (units s).length := by rw [hsl]; exact h1
+      have spec1 : Spec.padStart (units s) n (units f) = Spec.padFill (units f) (n - len s) ++ units s := by
+        simp [Spec.padStart, he, hsl, h1]
+      have spec2 : Spec.padEnd (units s) n (units f) = units s ++ Spec.padFill (units f) (n - len s) := by
+        simp [Spec.padEnd, he, hsl, h1]
+      have hds := devirt_units s
+      have hdf := devirt_units f
+      have hns := devirt_nf hs
+      have hnf := devirt_nf hf
+      -- the unicodeStringBuilder path, shared by three of the four devirtualisation cases
+      have upath : (fun r : Str => NF r ∧ units r = if atStart then Spec.padStart (units s) n (units f) else Spec.padEnd (units s) n (units f)) ((let fl := len f
+          let b0 := if atStart then usb0 else usb0.writeString s
+          let b1 := writeTimes b0 f ((n - len s) / fl)
+          let b2 := if (n - len s) % fl > 0 then b1.writeString (substring f 0 ((n - len s) % fl)) else b1
+          let b3 := if atStart then b2.writeString s else b2
+          b3.toStr)) := by
+        simp only
+        have i0 := usb0_inv
+        have fillEq : ∀ b : SB, b.Inv →
+            let b1 := writeTimes b f ((n - len s) / len f)
+            let b2 := if (n - len s) % len f > 0 then b1.writeString (substring f 0 ((n - len s) % len f)) else b1
+            b2.Inv ∧ b2.units = b.units ++ Spec.padFill (units f) (n - len s) := by
+          intro b hb
+          simp only
+          have w := writeTimes_spec ((n - len s) / len f) hb hf
+          by_cases hr : (n - len s) % len f > 0
+          · rw [if_pos hr]
+            have w2 := sb_writeString w.1 (nf_substring hf 0 ((n - len s) % len f))
+            refine ⟨w2.1, ?_⟩
+            rw [w2.2, w.2, substring_units, slice_zero, Spec.padFill, hfl, List.append_assoc]
+          · rw [if_neg hr]
+            have hz : (n - len s) % len f = 0 := by omega
+            refine ⟨w.1, ?_⟩
+            rw [w.2, Spec.padFill, hfl, hz]
+            simp
+        cases atStart with
+        | true =>
+          simp only [if_true]
+          have f1 := fillEq usb0 i0.1
+          simp only at f1
+          have w3 := sb_writeString f1.1 hs
+          refine ⟨(sb_toStr w3.1).1, ?_⟩
+          rw [(sb_toStr w3.1).2, w3.2, f1.2, i0.2, spec1]
+          simp
+        | false =>
+          simp only [Bool.false_eq_true, if_false]
+          have w0 := sb_writeString i0.1 hs
+          have f1 := fillEq (usb0.writeString s) w0.1
+          simp only at f1
+          refine ⟨(sb_toStr f1.1).1, ?_⟩
+          rw [(sb_toStr f1.1).2, f1.2, w0.2, i0.2, spec2]
+          simp
+      cases hdS : devirt s with
+      | a sa =>
+        cases hdF : devirt f with
+        | a fa =>
+          simp only
+          rw [hdS] at hds; rw [hdF] at hdf
+          simp only [DV.units] at hds hdf
+          have hfal : fa.length = len f := by rw [← hfl, ← hdf]; simp
+          have ua : ∀ b : List UInt8, units (.ascii b) = b.map b2u := fun _ => rfl
+          rw [hdS] at hns; rw [hdF] at hnf
+          simp only [DV.NF] at hns hnf
+          have hfill : ((List.replicate ((n - len s) / fa.length) fa).flatten ++ fa.take ((n - len s) % fa.length)).all asciiB = true := by
+            rw [List.all_append, all_flatten_replicate asciiB fa hnf, all_take hnf]; rfl
+          refine ⟨?_, ?_⟩
+          · cases atStart <;> simp only [NF, if_true, Bool.false_eq_true, if_false, List.all_append, hfill, hns] <;> rfl
+          cases atStart with
+          | true =>
+            simp only [if_true]
+            rw [spec1, ua, Spec.padFill, Spec.rep, hfl, ← hfal, ← hds, ← hdf]
+            simp only [List.map_append, map_flatten_replicate, List.map_take]
+          | false =>
+            simp only [Bool.false_eq_true, if_false]
+            rw [spec2, ua, Spec.padFill, Spec.rep, hfl, ← hfal, ← hds, ← hdf]
+            simp only [List.map_append, map_flatten_replicate, List.map_take]
+        | u fu => simp only; exact upath
+      | u su =>
+        cases hdF : devirt f with
+        | a fa => simp only; exact upath
+        | u fu => simp only; exact upath
+
+
+theorem padM_units {s f : Str} (hs : NF s) (hf : NF f) (n : Nat) (atStart : Bool) :
+    units (padM s f n atStart) =
+      (if atStart then Spec.padStart (units s) n (units f) else Spec.padEnd (units s) n (units f)) :=
+  (padM_spec hs hf n atStart).2
+
+/-- nf_preserved: padStart / padEnd (the class of the seeded change C06-m1) -/
+theorem nf_padM {s f : Str} (hs : NF s) (hf : NF f) (n : Nat) (atStart : Bool) : NF (padM s f n atStart) :=
+  (padM_spec hs hf n atStart).1
+
+/-- String.prototype.repeat as coded = the spec, in normal form -/
+theorem repeatM_spec {s : Str} (hs : NF s) (n : Nat) :
+    NF (repeatM s n) ∧ units (repeatM s n) = Spec.rep (units s) n := by
+  unfold Builtins.repeatM
+  by_cases h0 : n = 0 ∨ len s = 0
+  · rw [if_pos h0]
+    refine ⟨nf_emptyStr, ?_⟩
+    rcases h0 with h0 | h0
+    · rw [h0]; rfl
+    · have : units s = [] := by
+        have : (units s).length = 0 := h0
+        simpa using this
+      rw [this, rep_nil]; rfl
+  · rw [if_neg h0]
+    have hd := devirt_units s
+    have hn := devirt_nf hs
+    cases hdS : devirt s with
+    | a a =>
+      rw [hdS] at hd hn
+      simp only [DV.units, DV.NF] at hd hn
+      simp only
+      refine ⟨all_flatten_replicate asciiB a hn n, ?_⟩
+      show ((List.replicate n a).flatten).map b2u = _
+      rw [map_flatten_replicate, hd]; rfl
+    | u u =>
+      rw [hdS] at hd hn
+      simp only [DV.units, DV.NF] at hd hn
+      simp only
+      have w := writeTimes_spec n usb0_inv.1 (x := .uni u) hn
+      refine ⟨(sb_toStr w.1).1, ?_⟩
+      rw [(sb_toStr w.1).2, w.2, usb0_inv.2, ← hd]
+      rfl
+
+/-- String.fromCharCode as coded keeps every unit and returns a normal-form value -/
+theorem fromCharCodeM_spec (cs : List UInt16) : NF (fromCharCodeM cs) ∧ units (fromCharCodeM cs) = cs := by
+  unfold Builtins.fromCharCodeM
+  split
+  · rename_i h
+    exact ⟨all_asciiB_u2b h, map_b2u_u2b h⟩
+  · rename_i h
+    have hpre : (cs.takeWhile asciiU).all asciiU = true := all_takeWhile asciiU cs
+    have e : ((cs.takeWhile asciiU).map u2b).map b2u ++ cs.dropWhile asciiU = cs := by
+      rw [map_b2u_u2b hpre, List.takeWhile_append_dropWhile]
+    refine ⟨?_, by simp only [units]; exact e⟩
+    simp only [NF]
+    rw [e, any_nonAscii_eq_not_all]
+    simpa using h
+
+theorem sb_foldl_writeRune : ∀ (rs : List Nat) {b : SB}, b.Inv → (∀ r ∈ rs, r ≤ 0x10FFFF) →
+    (rs.foldl SB.writeRune b).Inv ∧ (rs.foldl SB.writeRune b).units = b.units ++ utf16 rs
+  | [], b, h, _ => by simp [utf16, h]
+  | r :: rs, b, h, hr => by
+    have h1 := sb_writeRune h (hr r (by simp))
+    have h2 := sb_foldl_writeRune rs h1.1 (fun x hx => hr x (by simp [hx]))
+    simp only [List.foldl_cons]
+    exact ⟨h2.1, by rw [h2.2, h1.2, utf16_cons]; simp⟩
+
+/-- String.fromCodePoint as coded: the UTF-16 encoding of the code points (a surrogate code point stays one unit) -/
+theorem fromCodePointM_spec (cps : List Nat) (h : ∀ c ∈ cps, c ≤ 0x10FFFF) :
+    NF (fromCodePointM cps) ∧ units (fromCodePointM cps) = utf16 cps := by
+  have w := sb_foldl_writeRune cps sb_inv_empty h
+  refine ⟨(sb_toStr w.1).1, ?_⟩
+  rw [fromCodePointM, (sb_toStr w.1).2, w.2]
+  rfl
+
+/-- String.prototype.concat is coded like the template-literal instruction -/
+theorem protoConcatM_eq (l : List Str) : protoConcatM l = concatStrings l := rfl
+
+
+theorem beq_b2u (a b : UInt8) : (b2u a == b2u b) = (a == b) := by
+  by_cases h : a = b
+  · subst h; simp
+  · have : b2u a ≠ b2u b := fun e => h (b2u_inj e)
+    rw [beq_eq_false_iff_ne.mpr h, beq_eq_false_iff_ne.mpr this]
+
+theorem isPrefixB_map : ∀ p l : List UInt8, isPrefixB p l = Spec.isPrefix (p.map b2u) (l.map b2u)
+  | [], _ => by simp [isPrefixB, Spec.isPrefix]
+  | _ :: _, [] => by simp [isPrefixB, Spec.isPrefix]
+  | a :: as, b :: bs => by simp [isPrefixB, Spec.isPrefix, beq_b2u, isPrefixB_map as bs]
+
+theorem indexFromB_map (p : List UInt8) : ∀ (l : List UInt8) (k : Nat),
+    indexFromB p l k = Spec.indexFrom (p.map b2u) (l.map b2u) k
+  | [], k => by simp [indexFromB, Spec.indexFrom]
+  | c :: cs, k => by
+    have := isPrefixB_map p (c :: cs)
+    simp only [List.map_cons] at this
+    simp only [indexFromB, Spec.indexFrom, List.map_cons, this, indexFromB_map p cs (k + 1)]
+
+theorem isPrefix_mem : ∀ (p l : List UInt16), Spec.isPrefix p l = true → ∀ x ∈ p, x ∈ l
+  | [], _, _, x, hx => by simp at hx
+  | _ :: _, [], h, _, _ => by simp [Spec.isPrefix] at h
+  | a :: as, b :: bs, h, x, hx => by
+    simp only [Spec.isPrefix, Bool.and_eq_true, beq_iff_eq] at h
+    simp only [List.mem_cons] at hx ⊢
+    rcases hx with rfl | hx
+    · exact Or.inl h.1
+    · exact Or.inr (isPrefix_mem as bs h.2 x hx)
+
+theorem indexFrom_none {p : List UInt16} {x : UInt16} (hx : x ∈ p) : ∀ (l : List UInt16) (k : Nat), x ∉ l →
+    Spec.indexFrom p l k = none
+  | [], k, _ => by
+    have : p.isEmpty = false := by cases p with
+      | nil => simp at hx
+      | cons => rfl
+    simp [Spec.indexFrom, this]
+  | c :: cs, k, hn => by
+    have h1 : Spec.isPrefix p (c :: cs) = false := by
+      cases h : Spec.isPrefix p (c :: cs) with
+      | false => rfl
+      | true => exact absurd (isPrefix_mem p _ h x hx) hn
+    have h2 : x ∉ cs := fun h => hn (List.mem_cons_of_mem _ h)
+    simp [Spec.indexFrom, h1, indexFrom_none hx cs (k + 1) h2]
+
+/-- String index search as coded for every representation pair = StringIndexOf on units -/
+theorem indexM_spec {s pat : Str} (hs : NF s) (hp : NF pat) (start : Nat) :
+    indexM s pat start = Spec.indexOf (units s) (units pat) start := by
+  have hds := devirt_units s
+  have hdp := devirt_units pat
+  have hns := devirt_nf hs
+  have hnp := devirt_nf hp
+  unfold indexM Spec.indexOf
+  rw [← hds, ← hdp]
+  cases hS : devirt s with
+  | a a =>
+    rw [hS] at hns
+    cases hP : devirt pat with
+    | a p =>
+      simp only [DV.units, List.length_map]
+      split
+      · rfl
+      · rw [indexFromB_map, List.map_drop]
+    | u p =>
+      rw [hP] at hnp
+      simp only [DV.units, DV.NF, List.length_map] at hns hnp ⊢
+      obtain ⟨x, hx, hxn⟩ := List.any_eq_true.mp hnp
+      have hnot : x ∉ (List.map b2u a).drop start := by
+        intro hmem
+        have hmem' := List.mem_of_mem_drop hmem
+        obtain ⟨y, hy, rfl⟩ := List.mem_map.mp hmem'
+        rw [nonAscii_b2u_of_all hns y hy] at hxn
+        cases hxn
+      split
+      · rfl
+      · rw [indexFrom_none hx _ _ hnot]
+  | u u => rfl
+
+theorem slice_full {α : Type} (l : List α) : slice l 0 l.length = l := by simp [slice]
+theorem slice_self {α : Type} (l : List α) (k : Nat) : slice l k k = [] := by simp [slice]
+theorem slice_to_end {α : Type} (l : List α) (k : Nat) : slice l k l.length = l.drop k := by
+  simp only [slice]
+  exact List.take_of_length_le (by simp)
+
+theorem utf16One_unit (c : UInt16) : utf16One c.toNat = [c] := by
+  have := c.toNat_lt
+  have h : c.toNat ≤ 0xFFFF := by omega
+  simp only [utf16One, h, if_true]
+  congr 1
+  apply UInt16.toNat_inj.mp
+  simp
+
+theorem sb_writeUnit {b : SB} (h : b.Inv) (c : UInt16) :
+    (b.writeRune c.toNat).Inv ∧ (b.writeRune c.toNat).units = b.units ++ [c] := by
+  have := c.toNat_lt
+  have w := sb_writeRune h (r := c.toNat) (by omega)
+  exact ⟨w.1, by rw [w.2, utf16One_unit]⟩
+
+/-- writeSubstitution as coded (string pattern) = GetSubstitution on units; units of the replacement text are
+written one by one with WriteRune, so lone surrogates in it survive -/
+theorem writeSubst_spec {s matched : Str} (hs : NF s) (hm : NF matched) (pos : Nat) :
+    ∀ (repl : List UInt16) {b : SB}, b.Inv →
+      (writeSubst s pos matched repl b).Inv ∧
+      (writeSubst s pos matched repl b).units = b.units ++ Spec.getSubst (units s) pos (units matched) repl
+  | [], b, h => by simp [writeSubst, Spec.getSubst, h]
+  | [c], b, h => by
+    have w := sb_writeUnit h c
+    simpa [writeSubst, Spec.getSubst] using w
+  | c :: ch :: rest, b, h => by
+    simp only [writeSubst, Spec.getSubst]
+    by_cases h1 : c.toNat = 36
+    · simp only [h1, if_true]
+      by_cases h2 : ch.toNat = 36
+      · simp only [h2, if_true]
+        have w := sb_writeUnit h (36 : UInt16)
+        rw [show (36 : UInt16).toNat = 36 from rfl] at w
+        have ih := writeSubst_spec hs hm pos rest w.1
+        exact ⟨ih.1, by rw [ih.2, w.2]; simp⟩
+      · simp only [h2, if_false]
+        by_cases h3 : ch.toNat = 96
+        · simp only [h3, if_true]
+          have w := sb_writeString h (nf_substring hs 0 pos)
+          have ih := writeSubst_spec hs hm pos rest w.1
+          exact ⟨ih.1, by rw [ih.2, w.2, substring_units, slice_zero]; simp⟩
+        · simp only [h3, if_false]
+          by_cases h4 : ch.toNat = 39
+          · simp only [h4, if_true]
+            by_cases h5 : pos + len matched < len s
+            · rw [if_pos h5]
+              have w := sb_writeString h (nf_substring hs (pos + len matched) (len s))
+              have ih := writeSubst_spec hs hm pos rest w.1
+              refine ⟨ih.1, ?_⟩
+              rw [ih.2, w.2, substring_units, ← len_def s, slice_to_end, len_def matched]
+              simp
+            · rw [if_neg h5]
+              have ih := writeSubst_spec hs hm pos rest h
+              refine ⟨ih.1, ?_⟩
+              have : (units s).drop (pos + (units matched).length) = [] := by
+                apply List.drop_eq_nil_of_le
+                rw [len_def s, len_def matched]; omega
+              rw [ih.2, this]; simp
+          · simp only [h4, if_false]
+            by_cases h6 : ch.toNat = 38
+            · simp only [h6, if_true]
+              have w := sb_writeString h hm
+              have ih := writeSubst_spec hs hm pos rest w.1
+              exact ⟨ih.1, by rw [ih.2, w.2]; simp⟩
+            · simp only [h6, if_false]
+              have w1 := sb_writeUnit h (36 : UInt16)
+              rw [show (36 : UInt16).toNat = 36 from rfl] at w1
+              have w2 := sb_writeUnit w1.1 ch
+              have ih := writeSubst_spec hs hm pos rest w2.1
+              have hc : c = 36 := UInt16.toNat_inj.mp (by simpa using h1)
+              refine ⟨ih.1, ?_⟩
+              rw [ih.2, w2.2, w1.2, hc]; simp
+    · simp only [h1, if_false]
+      have w := sb_writeUnit h c
+      have ih := writeSubst_spec hs hm pos (ch :: rest) w.1
+      exact ⟨ih.1, by rw [ih.2, w.2]; simp⟩
+
+/-- the `found` loop of stringReplace = the spec's result construction, for ANY list of positions -/
+theorem replaceGoM_spec {s : Str} (hs : NF s) (plen : Nat) (repl : List UInt16) :
+    ∀ (ps : List Nat) (last : Nat) {b : SB}, b.Inv →
+      (replaceGoM s plen repl ps last b).1.Inv ∧
+      Spec.replaceWithGo (units s) plen repl ps last b.units =
+        (replaceGoM s plen repl ps last b).1.units ++
+          slice (units s) (replaceGoM s plen repl ps last b).2 (units s).length
+  | [], last, b, h => by simp [replaceGoM, Spec.replaceWithGo, h]
+  | p :: ps, last, b, h => by
+    simp only [replaceGoM, Spec.replaceWithGo]
+    have hb1 : (if p ≠ last then b.writeString (substring s last p) else b).Inv ∧
+        (if p ≠ last then b.writeString (substring s last p) else b).units = b.units ++ slice (units s) last p := by
+      by_cases hp : p ≠ last
+      · rw [if_pos hp]
+        have w := sb_writeString h (nf_substring hs last p)
+        exact ⟨w.1, by rw [w.2, substring_units]⟩
+      · rw [if_neg hp]
+        have : p = last := by simpa using hp
+        subst this
+        exact ⟨h, by rw [slice_self]; simp⟩
+    have w := writeSubst_spec hs (nf_substring hs p (p + plen)) p repl hb1.1
+    have ih := replaceGoM_spec hs plen repl ps (p + plen) w.1
+    refine ⟨ih.1, ?_⟩
+    rw [← ih.2, w.2, hb1.2, substring_units]
+
+/-- Runtime.stringReplace as coded (string replacement): normal form, and the spec's result for the same positions -/
+theorem stringReplaceM_spec {s repl : Str} (hs : NF s) (plen : Nat) (found : List Nat) :
+    NF (stringReplaceM s plen found repl) ∧
+      units (stringReplaceM s plen found repl) = Spec.replaceWith (units s) plen found (units repl) := by
+  unfold stringReplaceM
+  cases found with
+  | nil =>
+    simp only [List.isEmpty_nil, if_true]
+    exact ⟨nf_touch hs, by rw [units_touch, Spec.replaceWith, Spec.replaceWithGo, slice_full]; rfl⟩
+  | cons p ps =>
+    simp only [List.isEmpty_cons, Bool.false_eq_true, if_false]
+    have g := replaceGoM_spec hs plen (units repl) (p :: ps) 0 sb_inv_empty
+    have hfin : (if (replaceGoM s plen (units repl) (p :: ps) 0 SB.empty).2 ≠ len s then
+          (replaceGoM s plen (units repl) (p :: ps) 0 SB.empty).1.writeString
+            (substring s (replaceGoM s plen (units repl) (p :: ps) 0 SB.empty).2 (len s))
+        else (replaceGoM s plen (units repl) (p :: ps) 0 SB.empty).1).Inv ∧
+        (if (replaceGoM s plen (units repl) (p :: ps) 0 SB.empty).2 ≠ len s then
+          (replaceGoM s plen (units repl) (p :: ps) 0 SB.empty).1.writeString
+            (substring s (replaceGoM s plen (units repl) (p :: ps) 0 SB.empty).2 (len s))
+        else (replaceGoM s plen (units repl) (p :: ps) 0 SB.empty).1).units =
+          Spec.replaceWith (units s) plen (p :: ps) (units repl) := by
+      rw [Spec.replaceWith]
+      have e0 : SB.empty.units = [] := rfl
+      rw [e0] at g
+      by_cases hl : (replaceGoM s plen (units repl) (p :: ps) 0 SB.empty).2 ≠ len s
+      · rw [if_pos hl]
+        have w := sb_writeString g.1 (nf_substring hs (replaceGoM s plen (units repl) (p :: ps) 0 SB.empty).2 (len s))
+        exact ⟨w.1, by rw [w.2, substring_units, g.2, len_def]⟩
+      · rw [if_neg hl]
+        have : (replaceGoM s plen (units repl) (p :: ps) 0 SB.empty).2 = len s := by simpa using hl
+        refine ⟨g.1, ?_⟩
+        rw [g.2, this, len_def, slice_self]; simp
+    exact ⟨(sb_toStr hfin.1).1, by rw [(sb_toStr hfin.1).2, hfin.2]⟩
+
+/-- String.prototype.replace(string, string) as coded = the spec on units, in normal form -/
+theorem replaceM_spec {s pat repl : Str} (hs : NF s) (hp : NF pat) :
+    NF (replaceM s pat repl) ∧
+      units (replaceM s pat repl) = Spec.replaceFirst (units s) (units pat) (units repl) := by
+  unfold replaceM Spec.replaceFirst
+  rw [indexM_spec hs hp 0]
+  cases Spec.indexOf (units s) (units pat) 0 with
+  | none =>
+    have w := stringReplaceM_spec (repl := repl) hs (len pat) []
+    refine ⟨w.1, ?_⟩
+    rw [w.2, Spec.replaceWith, Spec.replaceWithGo, slice_full]; rfl
+  | some p =>
+    have w := stringReplaceM_spec (repl := repl) hs (len pat) [p]
+    exact ⟨w.1, by rw [w.2, len_def]⟩
+
+theorem foundAllM_eq {s pat : Str} (hs : NF s) (hp : NF pat) : ∀ (fuel pos : Nat),
+    foundAllM s pat fuel pos = Spec.matchPositions (units s) (units pat) fuel pos
+  | 0, _ => rfl
+  | fuel + 1, pos => by
+    simp only [foundAllM, Spec.matchPositions, indexM_spec hs hp pos]
+    cases Spec.indexOf (units s) (units pat) pos with
+    | none => rfl
+    | some p => simp only [foundAllM_eq hs hp fuel, len_def]
+
+/-- String.prototype.replaceAll(string, string) as coded = the spec on units, in normal form -/
+theorem replaceAllM_spec {s pat repl : Str} (hs : NF s) (hp : NF pat) :
+    NF (replaceAllM s pat repl) ∧
+      units (replaceAllM s pat repl) = Spec.replaceAll (units s) (units pat) (units repl) := by
+  unfold replaceAllM Spec.replaceAll
+  have w := stringReplaceM_spec (repl := repl) hs (len pat) (foundAllM s pat (len s + 2) 0)
+  exact ⟨w.1, by rw [w.2, foundAllM_eq hs hp, len_def, len_def]⟩
+
+
+theorem uniSubstring_spec (u : List UInt16) (st en : Nat) :
+    NF (uniSubstring u st en) ∧ units (uniSubstring u st en) = slice u st en := by
+  simp only [uniSubstring]
+  split
+  · rename_i h; exact ⟨h, rfl⟩
+  · rename_i h
+    have : (slice u st en).all asciiU = true := by
+      rw [any_nonAscii_eq_not_all] at h
+      simpa using h
+    exact ⟨all_asciiB_u2b this, map_b2u_u2b this⟩
+
+theorem indexFrom_lt {ss : List UInt16} (hne : ss ≠ []) : ∀ (l : List UInt16) (k i : Nat),
+    Spec.indexFrom ss l k = some i → i < k + l.length
+  | [], k, i, h => by
+    have : ss.isEmpty = false := by cases ss with
+      | nil => exact absurd rfl hne
+      | cons => rfl
+    simp [Spec.indexFrom, this] at h
+  | c :: cs, k, i, h => by
+    simp only [Spec.indexFrom] at h
+    split at h
+    · cases h; simp
+    · have := indexFrom_lt hne cs (k + 1) i h
+      simp; omega
+
+theorem splitLoopM_spec {ss : List UInt16} (hne : ss ≠ []) : ∀ (fuel : Nat) (su : List UInt16) (idx : Nat),
+    idx = (Spec.indexFrom ss su 0).getD su.length →
+    (∀ p ∈ splitLoopM ss fuel su idx, NF p) ∧ (splitLoopM ss fuel su idx).map units = Spec.splitRel ss fuel su
+  | 0, su, idx, _ => by
+    have w := uniSubstring_spec su 0 su.length
+    simp only [splitLoopM, Spec.splitRel, List.mem_singleton, List.map_cons, List.map_nil]
+    exact ⟨fun p hp => by rw [hp]; exact w.1, by rw [w.2, slice_full]⟩
+  | fuel + 1, su, idx, hidx => by
+    simp only [splitLoopM, Spec.splitRel]
+    cases hi : Spec.indexFrom ss su 0 with
+    | none =>
+      rw [hi] at hidx
+      simp only [Option.getD] at hidx
+      have w := uniSubstring_spec su 0 idx
+      rw [if_pos hidx]
+      simp only [List.mem_singleton, List.map_cons, List.map_nil]
+      exact ⟨fun p hp => by rw [hp]; exact w.1, by rw [w.2, hidx, slice_full]⟩
+    | some i =>
+      rw [hi] at hidx
+      simp only [Option.getD] at hidx
+      subst hidx
+      have hlt := indexFrom_lt hne su 0 idx hi
+      have hne' : ¬ idx = su.length := by omega
+      rw [if_neg hne']
+      have w := uniSubstring_spec su 0 idx
+      have ih := splitLoopM_spec hne fuel (su.drop (idx + ss.length))
+        ((Spec.indexFrom ss (su.drop (idx + ss.length)) 0).getD (su.drop (idx + ss.length)).length) rfl
+      simp only [List.mem_cons, List.map_cons]
+      refine ⟨?_, by rw [w.2, slice_zero, ih.2]⟩
+      intro p hp
+      rcases hp with rfl | hp
+      · exact w.1
+      · exact ih.1 p hp
+
+theorem splitRelB_map (sep : List UInt8) : ∀ (fuel : Nat) (l : List UInt8),
+    (splitRelB sep fuel l).map (List.map b2u) = Spec.splitRel (sep.map b2u) fuel (l.map b2u)
+  | 0, l => rfl
+  | fuel + 1, l => by
+    simp only [splitRelB, Spec.splitRel, indexFromB_map sep l 0]
+    cases Spec.indexFrom (sep.map b2u) (l.map b2u) 0 with
+    | none => rfl
+    | some idx =>
+      simp only [List.map_cons, List.map_take, splitRelB_map sep fuel, List.map_drop, List.length_map]
+
+theorem all_ascii_splitRelB (sep : List UInt8) : ∀ (fuel : Nat) (l : List UInt8), l.all asciiB = true →
+    ∀ p ∈ splitRelB sep fuel l, p.all asciiB = true
+  | 0, l, h, p, hp => by simp only [splitRelB, List.mem_singleton] at hp; rw [hp]; exact h
+  | fuel + 1, l, h, p, hp => by
+    simp only [splitRelB] at hp
+    split at hp
+    · simp only [List.mem_singleton] at hp; rw [hp]; exact h
+    · simp only [List.mem_cons] at hp
+      rcases hp with rfl | hp
+      · exact all_take h _
+      · refine all_ascii_splitRelB sep fuel _ ?_ p hp
+        rw [List.all_eq_true] at h ⊢
+        intro x hx
+        exact h x (List.mem_of_mem_drop hx)
+
+/-- String.prototype.split(string) as coded: every piece is in normal form and the pieces are the spec's pieces -/
+theorem splitM_spec {s sep : Str} (hs : NF s) (hp : NF sep) :
+    (∀ p ∈ splitM s sep, NF p) ∧ (splitM s sep).map units = Spec.split (units s) (units sep) := by
+  have hds := devirt_units s
+  have hdp := devirt_units sep
+  have hns := devirt_nf hs
+  have hnp := devirt_nf hp
+  unfold splitM Spec.split
+  rw [← hds, ← hdp]
+  cases hS : devirt s with
+  | a sa =>
+    rw [hS] at hns hds
+    simp only [DV.NF] at hns
+    cases hP : devirt sep with
+    | a sepa =>
+      simp only [DV.units, List.isEmpty_map, List.length_map]
+      by_cases he : sepa.isEmpty = true
+      · simp only [he, if_true]
+        refine ⟨?_, ?_⟩
+        · intro p hp
+          simp only [List.mem_map] at hp
+          obtain ⟨q, ⟨c, hc, rfl⟩, rfl⟩ := hp
+          simp only [NF, List.all_cons, List.all_nil, Bool.and_true]
+          exact (List.all_eq_true.mp hns) c hc
+        · simp [units, Function.comp_def]
+      · simp only [he, if_false]
+        refine ⟨?_, ?_⟩
+        · intro p hp
+          simp only [List.mem_map] at hp
+          obtain ⟨q, hq, rfl⟩ := hp
+          exact all_ascii_splitRelB sepa _ sa hns q hq
+        · rw [← splitRelB_map]
+          simp [units, Function.comp_def]
+    | u sepu =>
+      rw [hP] at hnp
+      simp only [DV.units, DV.NF] at hnp ⊢
+      simp only [List.mem_singleton, List.map_cons, List.map_nil]
+      refine ⟨fun p hp => by rw [hp]; exact nf_touch hs, ?_⟩
+      have hne : sepu.isEmpty = false := by
+        cases sepu with
+        | nil => simp at hnp
+        | cons => rfl
+      obtain ⟨x, hx, hxn⟩ := List.any_eq_true.mp hnp
+      have hnot : x ∉ List.map b2u sa := by
+        intro hmem
+        obtain ⟨y, hy, rfl⟩ := List.mem_map.mp hmem
+        rw [nonAscii_b2u_of_all hns y hy] at hxn
+        cases hxn
+      simp only [hne, Bool.false_eq_true, if_false, List.length_map, Spec.splitRel,
+        indexFrom_none hx _ 0 hnot]
+      rw [units_touch, ← hds]; rfl
+  | u su =>
+    rw [hS] at hds
+    have e1 : (DV.u su).units = su := rfl
+    rw [e1] at hds ⊢
+    simp only
+    by_cases he : (devirt sep).units.isEmpty = true
+    · simp only [he, if_true]
+      refine ⟨?_, ?_⟩
+      · intro p hp
+        simp only [List.mem_map] at hp
+        obtain ⟨c, _, rfl⟩ := hp
+        split
+        · rename_i h; simp [NF, h]
+        · rename_i h
+          have : asciiU c = true := by simpa [nonAsciiU] using h
+          simp [NF, asciiB_u2b this]
+      · rw [List.map_map]
+        apply List.map_congr_left
+        intro c _
+        simp only [Function.comp]
+        split
+        · rfl
+        · rename_i h
+          have : asciiU c = true := by simpa [nonAsciiU] using h
+          simp [units, b2u_u2b this]
+    · simp only [he, if_false]
+      have hne : (devirt sep).units ≠ [] := by
+        intro e; rw [e] at he; simp at he
+      cases hi : Spec.indexFrom (devirt sep).units su 0 with
+      | none =>
+        simp only [Bool.false_eq_true, if_false, List.mem_singleton, List.map_cons, List.map_nil, Spec.splitRel, hi]
+        exact ⟨fun p hp => by rw [hp]; exact nf_touch hs, by rw [units_touch, ← hds]⟩
+      | some idx =>
+        simp only [Bool.false_eq_true, if_false]
+        exact splitLoopM_spec hne (su.length + 1) su idx (by rw [hi]; rfl)
+
+theorem sb_foldl_join {sep : Str} (hsep : NF sep) : ∀ (rest : List Str) {b : SB}, b.Inv → (∀ q ∈ rest, NF q) →
+    (rest.foldl (fun b q => (b.writeString sep).writeString q) b).Inv ∧
+    (rest.foldl (fun b q => (b.writeString sep).writeString q) b).units =
+      b.units ++ rest.flatMap (fun q => units sep ++ units q)
+  | [], b, h, _ => by simp [h]
+  | q :: rest, b, h, hq => by
+    have w1 := sb_writeString h hsep
+    have w2 := sb_writeString w1.1 (hq q (by simp))
+    have ih := sb_foldl_join hsep rest w2.1 (fun x hx => hq x (by simp [hx]))
+    simp only [List.foldl_cons, List.flatMap_cons]
+    exact ⟨ih.1, by rw [ih.2, w2.2, w1.2]; simp⟩
+
+/-- Array.prototype.join over strings as coded = the spec's join on units, in normal form -/
+theorem joinM_spec {ps : List Str} {sep : Str} (hps : ∀ p ∈ ps, NF p) (hsep : NF sep) :
+    NF (joinM ps sep) ∧ units (joinM ps sep) = Spec.join (ps.map units) (units sep) := by
+  cases ps with
+  | nil => exact ⟨nf_emptyStr, rfl⟩
+  | cons p rest =>
+    simp only [joinM, Spec.join, List.map_cons]
+    have w0 := sb_writeString sb_inv_empty (hps p (by simp))
+    have w := sb_foldl_join hsep rest w0.1 (fun x hx => hps x (by simp [hx]))
+    refine ⟨(sb_toStr w.1).1, ?_⟩
+    rw [(sb_toStr w.1).2, w.2, w0.2]
+    simp [SB.units, SB.empty, List.flatMap_map]
+
+/-- s.split(sep).join(j) as coded = the spec -/
+theorem splitJoinM_spec {s sep j : Str} (hs : NF s) (hp : NF sep) (hj : NF j) :
+    NF (joinM (splitM s sep) j) ∧
+      units (joinM (splitM s sep) j) = Spec.join (Spec.split (units s) (units sep)) (units j) := by
+  have w := splitM_spec hs hp
+  have v := joinM_spec w.1 hj
+  exact ⟨v.1, by rw [v.2, w.2]⟩
+
+end BuiltinsSection
 
 /-! ## non-vacuity (tests on literals, not proofs of the property) -/
 
